@@ -236,7 +236,7 @@ def h_meniscus(h):
 def obligations(tier):
     obs = []
     kw = dict(funcs=FUNCS, timeout_s=60 if tier == 'quick' else 600, validate=1)
-    ks = (3, 4) if tier == 'quick' else (3, 4, 5, 6)
+    ks = (3, 4) if tier == 'quick' else (3, 4, 5)      # (k = 6: z3 did not return within 25 min on the BJH recurrence)
     for k in ks:
         for zt in (True, False):
             for geom in ('slit', 'cylinder', 'sphere'):
